@@ -23,7 +23,11 @@ RULE = ('history = 2-14 generated operations, mostly update_one / update_many / 
         '$addToSet with $each, $pull, $pullAll, $pop, $rename, $currentDate, $setOnInsert) on '
         'dotted paths aimed at existing fields, arrays and beyond their end, chained so that each '
         'update works on the result of the previous ones, half of the histories on emulated '
-        'server 4.4; the witnesses of the repaired defects are replayed first; every step is compared with the Lean model (outcome, full documents) and, '
+        'server 4.4; 3% of the operators are malformed (unknown $operator in any position, also behind '
+        'valid ones and with filters matching nothing; a clause next to $each in $addToSet; bad '
+        'arguments); the witnesses of the repaired defects are replayed first; every step is '
+        'compared with the Lean model (outcome, full documents): an accepted unknown operator or '
+        '$addToSet clause is reported directly; and, '
         'where the independent reference semantics commits to an answer, with the reference; '
         '8% of the updates use the positional operator (filter with $elemMatch, path f.$.x; outside '
         'the Lean model, judged on python only): every update_many over >= 2 matches is compared '
@@ -141,6 +145,19 @@ def oracle(history, steps):
             break
         k = st.op[0]
         pre = (st.extra or {}).get('pre')
+        if k in ('update_one', 'update_many') and st.out[0] == 'val' and isinstance(st.op[2], dict):
+            # what must be refused: an unknown $operator (whether or not anything matches), and
+            # a clause next to $each in $addToSet once the update is applied to a document
+            unknown = refupdate.unknown_operators(st.op[2])
+            if unknown:
+                fails.append((i, 'unknown-operator-accepted', '%s %r %r was accepted (%r): %r is '
+                              'no update operator' % (k, st.op[1], st.op[2], st.out[1], unknown[0])))
+            clause = refupdate.addtoset_clause(st.op[2])
+            applied = (pre and 'error' not in pre and pre.get('matched')) or len(docs) > len(prev)
+            if clause and applied and not unknown:
+                fails.append((i, 'addtoset-clause-accepted', '%s %r %r was applied to a document '
+                              'although $addToSet.%s carries %r next to $each'
+                              % (k, st.op[1], st.op[2], clause[0], clause[1])))
         if k in ('update_one', 'update_many', 'replace_one') and st.out[0] == 'val' and pre and \
                 'error' not in pre and pre['size'] == len(prev) and all(j >= 0 for j in pre['matched']):
             out = st.out[1]
@@ -205,12 +222,40 @@ def oracle(history, steps):
     return fails
 
 
+UPDATER_OPS = ('$set', '$unset', '$inc', '$min', '$max', '$pop', '$currentDate', '$setOnInsert')
+
+
+def skips_component(doc, parts):
+    """the path meets an array with a component that is no index: `_update_document_single_field`
+    drops that component and goes on with the next one"""
+    cur = doc
+    for p in parts:
+        if isinstance(cur, dict):
+            if p not in cur:
+                return False
+            cur = cur[p]
+        elif isinstance(cur, list):
+            if not p.isdigit():
+                return True
+            if int(p) >= len(cur):
+                return False
+            cur = cur[int(p)]
+        else:
+            return False
+    return False
+
+
 def classify(spec, doc):
-    """which known deviation class (if any) an operator-result mismatch falls in.  The only class
-    left is `boolnum`; $pullAll on a missing path, duplicates inside $addToSet.$each, $min/$max on
-    an array element and $pull with a path into an array are repaired and no longer excused."""
+    """which known deviation class (if any) an operator-result mismatch falls in: `boolnum`, and
+    `nonnumeric-component-skipped` (a path component that is no index is dropped when it meets an
+    array); $pullAll on a missing path, duplicates inside $addToSet.$each, $min/$max on an array
+    element and $pull with a path into an array are repaired and no longer excused."""
     if not isinstance(spec, dict):
         return None
+    for op in UPDATER_OPS:
+        b0 = spec.get(op)
+        if isinstance(b0, dict) and any(skips_component(doc, str(p).split('.')) for p in b0):
+            return 'nonnumeric-component-skipped'
     body = spec.get('$addToSet')
     if isinstance(body, dict):
         for p, arg in body.items():
